@@ -5,7 +5,7 @@ CONSTANTS
   Deviations = {}
   Prov = "G"
   FixedRoots = TRUE
-  Depth = 7
+  Depth = 8
   EmitLevel = 0
 SPECIFICATION MCSpec
 
